@@ -244,9 +244,11 @@ PROPS['C11'] = {
              'and parties -- the structural reasons for consistency, for all m, t, PRSS on/off.',
 }
 PROPS['C18'] = {
-    'rules': [R(pa.rule_MK1), R(pa.rule_MK2), R(pa.rule_MK5), R(pa.rule_SS1), R(pc.rule_PC9), R(ss.rule_PR1), R(sg.rule_TC1)],
-    'floors': {'MK1': 40, 'MK2': 12, 'MK5': 6, 'SS1': 60, 'PC9': 14, 'PR1': 12, 'TC1': 10},
-    'explanation': 'For every opening inside library code (runtime, random, statistics, secgroups, seclists, secpols, sectypes) the abstract '
+    'rules': [R(pa.rule_MK1), R(pa.rule_MK2), R(pa.rule_MK5), R(pa.rule_SS1), R(pc.rule_PC9), R(ss.rule_PR1), R(sg.rule_TC1), R(sg.rule_SG1)],
+    'floors': {'MK1': 40, 'MK2': 12, 'MK5': 6, 'SS1': 60, 'PC9': 14, 'PR1': 12, 'TC1': 10, 'SG1': 10},
+    'explanation': 'Scalar and array siblings of the masked-opening protocols draw masks of the same size, open with the same thresholds and re-randomise '
+                   'with a fresh PRSS zero-sharing under equivalent conditions (SG1: a sibling that re-randomises one opening less than the other reuses a '
+                   'spent mask). For every opening inside library code (runtime, random, statistics, secgroups, seclists, secpols, sectypes) the abstract '
                    'interpreter computes which random sources the opened value depends on: it must be blinded by a field-uniform value, '
                    'statistically masked, a one-time pad of random bits in a binary field, depend on fresh randomness only, or be listed as '
                    'public by design with its reason (MK1). For statistical masks the bound of the random term, followed through shifts and '
